@@ -75,13 +75,24 @@ func c06Cases(tier string) []SchedCase {
 
 func c05Cases(tier string) []SchedCase {
 	var out []SchedCase
+	one, two := 1, 2
 	add := func(tr, q string, p Plan) {
-		out = append(out, SchedCase{Case: Case{Op: Op{Text: q}, Plan: p, Yield: true, Cancel: true}, Transport: tr, Name: tr + " " + q + " | " + p.Key()})
+		var b *int
+		if tr == "ws" {
+			// the websocket session adds many scheduling points: one deviation fewer
+			b = &one
+			if tier == "thorough" {
+				b = &two
+			}
+		}
+		out = append(out, SchedCase{Case: Case{Op: Op{Text: q}, Plan: p, Yield: true, Cancel: true}, Transport: tr, Name: tr + " " + q + " | " + p.Key(), Bound: b})
 	}
-	trs := []string{"", "post"}
+	trs := []string{"", "post", "ws"}
 	if tier == "thorough" {
 		trs = append(trs, "sse", "mixed", "get")
 	}
+	// a websocket session that never initialises (InitTimeout set)
+	out = append(out, SchedCase{Case: Case{Op: Op{Text: `{str}`}, Yield: true, Cancel: true}, Transport: "ws-timeout", Name: "ws-timeout silent client"})
 	for _, tr := range trs {
 		add(tr, `{t{name req}}`, nil)
 		add(tr, `{ts{name}}`, nil)
@@ -175,6 +186,12 @@ func (si *schedInst) Body() {
 	case "mixed":
 		srv.AddTransport(transport.MultipartMixed{})
 		req.Header.Set("Accept", "multipart/mixed")
+	}
+	if si.sc.Transport == "ws" || si.sc.Transport == "ws-timeout" {
+		si.serveWebsocket(ctx, srv, body)
+		in.Done = true
+		cancel()
+		return
 	}
 	req = req.WithContext(ctx)
 	srv.ServeHTTP(si.rw, req)
@@ -388,6 +405,10 @@ func (si *schedInst) checkTermination(x *explore.Exec) (string, string) {
 	case "blocked":
 		what := strings.Join(x.Out.Blocked, "; ")
 		cls := blockClass(x.Out.Blocked)
+		if !x.Out.MainDone && x.Out.EnvPending && (si.sc.Transport == "ws" || si.sc.Transport == "ws-timeout") {
+			// a websocket session legitimately waits for its peer / its init timeout
+			return "", ""
+		}
 		if !x.Out.MainDone {
 			return "deadlock:" + cls, fmt.Sprintf("[%s] the request never returns (cancelled=%v): blocked threads: %s", tr, si.Cancelled, what)
 		}
@@ -474,4 +495,51 @@ func (s *Shared) schedMain(prop, tier string) {
 			return out
 		},
 	})
+}
+
+// serveWebsocket runs the operation over the real websocket transport on an in-memory
+// connection: a scripted graphql-transport-ws client sends connection_init and subscribe,
+// waits for the operation's complete (or error) frame and disconnects. With "ws-timeout"
+// the client stays silent and the init timeout is what ends the session.
+func (si *schedInst) serveWebsocket(ctx context.Context, srv *handler.Server, params []byte) {
+	conn := rig.NewConn()
+	done := false
+	conn.OnWrite = func(p []byte) {
+		if bytes.Contains(conn.Out, []byte(`"type":"complete"`)) || bytes.Contains(conn.Out, []byte(`"type":"error"`)) {
+			done = true
+		}
+	}
+	ws := transport.Websocket{}
+	if si.sc.Transport == "ws-timeout" {
+		ws.InitTimeout = time.Second
+	}
+	srv.AddTransport(ws)
+	hrw := rig.NewHijackRW(conn)
+	si.rw = hrw.RW
+	req := rig.UpgradeRequest("graphql-transport-ws").WithContext(ctx)
+	vrt.Go("ws-client", func() {
+		if si.sc.Transport == "ws" {
+			vrt.Yield("client-send init")
+			conn.Feed(rig.ClientFrame(rig.OpText, []byte(`{"type":"connection_init"}`)))
+			vrt.Yield("client-send subscribe")
+			conn.Feed(rig.ClientFrame(rig.OpText, []byte(`{"type":"subscribe","id":"1","payload":`+string(params)+`}`)))
+			vrt.Point("client awaits completion", nil, func() int {
+				if done || conn.Closed {
+					return 1
+				}
+				return 0
+			})
+		} else {
+			// silent client: wait until the server gave up
+			vrt.Point("client awaits close", nil, func() int {
+				if conn.Closed {
+					return 1
+				}
+				return 0
+			})
+		}
+		vrt.Yield("client-disconnect")
+		conn.CloseClient()
+	})
+	srv.ServeHTTP(hrw, req)
 }
